@@ -5,47 +5,47 @@ From ApolloVerif Require Import Base.Chars Lex.Item Parse.Outcome Parse.Builder 
 
 Inductive pw_entry := PW_doc | PW_selset | PW_type.
 
-(* serialised tree: open node / leaf / close *)
+(* serialised ptree: open p_node / leaf / close *)
 Inductive pw_tok := PW_open (k : skind) | PW_leaf (k : skind) (text : str) | PW_close.
 
-Fixpoint pw_flatten (t : tree) : list pw_tok :=
+Fixpoint pw_flatten (t : ptree) : list pw_tok :=
   match t with
-  | Leaf k s => [PW_leaf k s]
-  | Node k c =>
+  | PLeaf k s => [PW_leaf k s]
+  | PNode k c =>
       PW_open k ::
-      (fix go (l : list tree) : list pw_tok :=
+      (fix go (l : list ptree) : list pw_tok :=
          match l with [] => [PW_close] | x :: r => pw_flatten x ++ go r end) c
   end.
 
 Record pw_obs := {
-  pw_status : N;                       (* 0 = returned, 1 = panic, 2 = out of fuel *)
+  pw_status : N;                       (* 0 = returned, 1 = p_panic, 2 = out of fuel *)
   pw_leaves : list (skind * str);
   pw_range_end : N;                    (* the root's text range is 0 .. pw_range_end *)
   pw_errors : list (bool * N);         (* (is_limit, index) in order *)
   pw_rec_high : N;
   pw_tok_high : N;
   pw_struct : list pw_tok;
-  pw_dropped : N                       (* ghost: bytes of text dropped by ty::parse (D3) *)
+  pw_dropped : N                       (* ghost: bytes of text dropped by g_ty::g_parse (D3) *)
 }.
 
 Definition pw_fail (st : N) : pw_obs :=
   {| pw_status := st; pw_leaves := []; pw_range_end := 0; pw_errors := []; pw_rec_high := 0;
      pw_tok_high := 0; pw_struct := []; pw_dropped := 0 |}.
 
-Definition pw_of_result (o : outcome result) : pw_obs :=
+Definition pw_of_result (o : poutcome presult) : pw_obs :=
   match o with
-  | Ok r =>
+  | POk r =>
       {| pw_status := 0;
-         pw_leaves := leaves (r_tree r);
-         pw_range_end := blen (text_of (r_tree r));
-         pw_errors := map (fun e => (match pe_class e with PLimit => true | PSyntax => false end,
-                                     pe_index e)) (r_errors r);
-         pw_rec_high := tr_high (r_rec r);
-         pw_tok_high := r_tokens_high r;
-         pw_struct := pw_flatten (r_tree r);
-         pw_dropped := blen (concat (map td (r_dropped r))) |}
-  | Panic _ => pw_fail 1
-  | OutOfFuel => pw_fail 2
+         pw_leaves := p_leaves (pr_tree r);
+         pw_range_end := blen (p_text_of (pr_tree r));
+         pw_errors := map (fun e => (match pe_class e with PcLimit => true | PcSyntax => false end,
+                                     pe_index e)) (pr_errors r);
+         pw_rec_high := ptr_high (pr_rec r);
+         pw_tok_high := pr_tokens_high r;
+         pw_struct := pw_flatten (pr_tree r);
+         pw_dropped := blen (concat (map tok_data (pr_dropped r))) |}
+  | PPanic _ => pw_fail 1
+  | POutOfFuel => pw_fail 2
   end.
 
 Definition pw_run (e : pw_entry) (dbg : bool) (rl : N) (items : list item) : pw_obs :=
@@ -59,8 +59,8 @@ Definition pw_run (e : pw_entry) (dbg : bool) (rl : N) (items : list item) : pw_
 (* building items from plain data (token kinds by their position in lexer/token_kind.rs) *)
 Definition pw_tkind_of_code (c : N) : tkind :=
   nth (N.to_nat c)
-    [Whitespace; Comment; Bang; Dollar; Amp; Spread; Comma; Colon; Eq; At; LParen; RParen; LBracket;
-     RBracket; LCurly; RCurly; Pipe; Eof; Name; StringValue; Int; Float] Eof.
-Definition pw_mk_tok (code : N) (data : str) (index : N) : item := Tok (pw_tkind_of_code code) data index.
+    [TkWhitespace; TkComment; TkBang; TkDollar; TkAmp; TkSpread; TkComma; TkColon; TkEq; TkAt; TkLParen; TkRParen; TkLBracket;
+     TkRBracket; TkLCurly; TkRCurly; TkPipe; TkEof; TkName; TkStringValue; TkInt; TkFloat] TkEof.
+Definition pw_mk_tok (code : N) (data : str) (index : N) : item := ITok (pw_tkind_of_code code) data index.
 Definition pw_mk_err (is_limit : bool) (data : str) (index : N) : item :=
-  Err (if is_limit then ELimit else ELex) data index.
+  IErr (if is_limit then ELimit else ELex) data index.
